@@ -32,6 +32,12 @@ RULE = (
     "stream must behave as its pre-flip (benign) content. Non-trivial = verdict above "
     "LIKELY_SAFE, or flip / non-seekable stream, or an injected fault, or analysis raises; "
     "distinct = distinct (bytes, stream, threshold, path, fault)."
+    ' Further dimensions added after seeding rounds 5-7: streams handed over at an offset (real'
+    ' file, mmap); payloads naming importable-but-unloaded canary modules (no import on refusal);'
+    ' unpickler keyword arguments on every path; bytes that are not a complete pickle per'
+    ' pickletools (nothing may ever be resolved on them); an accepted outer pickle that performs a'
+    ' nested pickle.load of a flagged stream under an armed check; a lenient with-block that has'
+    ' come and gone.'
 )
 ASSUMPTIONS = [
     "the context manager's threshold argument is not varied (its API does not honour one); only "
